@@ -27,14 +27,15 @@ RULE = ('part 1: every sparsity mask of the shapes {1x3,3x1,2x3,3x2} (+3x3 thoro
         'normalize-table; non-trivial = at least one non-zero cell, distinct by (shape, mask, pool, '
         'layout). part 2: BFS over histories with the value transforms judged against the dense model')
 
-OID = ['o10', 'o9', 'o2']
-SID = ['s2', 's1', 's3']
+OID = ['o10', 'o9', 'o2', 'o4', 'o5', 'o6']
+SID = ['s2', 's1', 's3', 's4', 's5', 's6']
 LAYOUTS = ['csr', 'csc', 'unsorted']
 POOLS = {
     'distinct': [1.0, 2.0, 3.0, 0.5, 5.0, 0.25, 7.0, 8.0, 9.0],
     'ties': [2.0, 2.0, 1.0, 2.0, 1.0, 1.0, 3.0, 3.0, 2.0],
     'negative': [1.0, -2.0, 3.0, -0.5, 5.0, 0.25, -7.0, 8.0, -9.0],
     # magnitudes at and below 1e-8, sub-normal totals (a reciprocal would overflow), one huge value
+    'ties6': [2.0, 2.0, 1.0, 1.0, 2.0, 1.0],
     'tiny': [1e-9, 2.5e-10, 1e-310, 3e-310, 2e-9, 5e-324, 1e-8, 4e-310, 3e-9],
 }
 TRANSFORM_OPS = ('transform2', 'transform_zero', 'norm', 'rank', 'pa')
@@ -75,6 +76,11 @@ def cases(tier, seed):
             for pool in POOLS:
                 for lay in LAYOUTS:
                     out.append({'shape': list(sh), 'mask': mask, 'pool': pool, 'layout': lay})
+    # longer vectors with ties (a sort that is only stable on very short inputs shows here)
+    for sh in ((1, 6), (6, 1)):
+        for mask in range(1 << 6):
+            for lay in LAYOUTS:
+                out.append({'shape': list(sh), 'mask': mask, 'pool': 'ties6', 'layout': lay})
     return out
 
 
